@@ -92,6 +92,8 @@ class Interp:
         self.return_hook = None
         self.pending_closures = []
         self.inv_targets = None
+        self.trusted_ctx = frozenset()
+        self.rootset = frozenset()
         self.inv_records = {}
         self.entered = set()
         self.cur_site = None
@@ -570,6 +572,11 @@ class Interp:
     def record_construction(self, st, v):
         if self.root is not None and self.root.get("unsafe"):
             return
+        if self.trusted_ctx and any(f.body["path"] in self.trusted_ctx for f in st.frames):
+            return
+        if self.rootset and any(f.body["path"] in self.rootset for f in st.frames[1:]):
+            # the inlined function is analysed as a root itself (for all admissible inputs)
+            return
         from .inv import extract_disjuncts
         tgt = self.inv_targets[v.path]
         try:
@@ -593,7 +600,12 @@ class Interp:
                 v = nv
                 for i, p in enumerate(projs):
                     if isinstance(v, VAdt) and v.variant == 0 and v.path in self.inv_targets and p[0] == "f":
-                        self.record_construction(st, v)
+                        # deferred: the invariant has to hold when the writing frame returns
+                        if st.frames:
+                            fr = st.frames[-1]
+                            key = (cur[1], cur[2], projs[:i])
+                            if key not in fr.dirty:
+                                fr.dirty = fr.dirty + (key,)
                     v = self.step_value(st, v, p)
             return
         if kind == "byte":
@@ -1378,7 +1390,20 @@ class Interp:
         self.sink.events.append(("unknown_term", fr.body["path"], self.cur_site, t.get("d")))
         return []
 
+    def flush_dirty(self, st, fr):
+        if not fr.dirty:
+            return
+        for (fid, local, projs) in fr.dirty:
+            if fid == fr.fid and not st.frames:
+                pass
+            v = self.load(st, ("place", fid, local, projs))
+            if isinstance(v, VAdt) and v.variant == 0 and v.path in self.inv_targets:
+                self.record_construction(st, v)
+        fr.dirty = ()
+
     def exec_return(self, st, fr):
+        if self.inv_targets is not None and fr.dirty:
+            self.flush_dirty(st, fr)
         rv = fr.locals.get(0)
         if rv is None:
             rv = VTuple(())
@@ -1730,6 +1755,8 @@ class Interp:
                 self.oblige(st, "prec", "unsafe fn %s not inlined (depth)" % path, False, site, self.cur_sp)
             self.opaque_calls.append((path, self.ctx(st), st.frames[-1].body["path"], site))
             return self.havoc_call(st, args, dty, ret_k, None, callee_body=body)
+        if self.inv_targets is not None and st.frames and st.frames[-1].dirty:
+            self.flush_dirty(st, st.frames[-1])
         self.new_frame(st, body, args, ret_k, site)
         return [st]
 
